@@ -253,13 +253,13 @@ MANIFEST_TEXT['C15'] = (
 PROPS['C16'] = P(
     ['world_reactor_add_registers_its_single_system_partial', 'world_reactor_remove_revokes_partial',
      'persistent_registration_spawns_and_collects_nothing_partial', 'removing_triggers_despawns_nothing_partial',
-     'entity_reactor_add_partial', 'local_data_attached_partial', 'run_sees_the_data_of_its_entity_partial', 'entity_reactor_remove_partial',
+     'local_data_only_on_live_entities', 'local_data_invariant_everywhere', 'entity_reactor_add_partial', 'local_data_attached_partial', 'run_sees_the_data_of_its_entity_partial', 'entity_reactor_remove_partial',
      'every_named_entity_is_cleaned_once_partial', 'data_removed_with_the_last_trigger_kept_otherwise_partial', 'cleanup_leaves_other_data_partial'],
     ['xw', 'mixed'], 'xw', determined=False,
     assumes=['PARTIAL: step-level theorems for all states; the frame over whole runs (no other step changes a datum besides the body\'s own increment and the despawn of the entity; the shared system is never despawned or duplicated by any sequence) rests on the correspondence: the set of (reactor, entity) data is compared after every top-level op and the datum shown to every run is compared',
              'what registration / revocation do to the tables is C01 / C06'])
 MANIFEST_TEXT['C16'] = (
- "Partial proof. Machine-checked for all states: adding triggers to a world reactor is a registration of its single statically installed system under a persistent handle (which changes no state besides queuing table insertions: nothing is spawned, no auto-despawn signal exists for it), removing triggers is a revocation, which despawns nothing and touches no callback; for an entity world reactor, add attaches the datum and registers the entity's triggers, a run caused by an entity is shown exactly the datum stored for that entity, remove revokes and cleans every named entity exactly once, and the cleanup removes the datum exactly when the entity holds no handle of the reactor's system any more and leaves every other datum alone. The whole-run frame is not a theorem; it is checked by differential runs of the xw profile (add / remove / trigger / despawn over several entities and both reactors, removal bundles naming several entities with partial removal) comparing the (reactor, entity) data set after every op and the datum seen by every run.",
+ "Partial proof. Machine-checked for whole runs: in every reachable state local data sits on live entities only (closed invariant: the body's own increment writes the datum of a live reacting entity, despawning an entity removes its data). Machine-checked for all states: adding triggers to a world reactor is a registration of its single statically installed system under a persistent handle (which changes no state besides queuing table insertions: nothing is spawned, no auto-despawn signal exists for it), removing triggers is a revocation, which despawns nothing and touches no callback; for an entity world reactor, add attaches the datum and registers the entity's triggers, a run caused by an entity is shown exactly the datum stored for that entity, remove revokes and cleans every named entity exactly once, and the cleanup removes the datum exactly when the entity holds no handle of the reactor's system any more and leaves every other datum alone. The whole-run frame is not a theorem; it is checked by differential runs of the xw profile (add / remove / trigger / despawn over several entities and both reactors, removal bundles naming several entities with partial removal) comparing the (reactor, entity) data set after every op and the datum seen by every run.",
  "Trusted: Coq kernel; model faithfulness (differential); Bevy semantics as modelled. Partial: whole-run frame and never-duplicated/never-despawned are correspondence only.",
  "Coq proof of the step-level behaviour (partial) + model/implementation correspondence on local data and runs", "DESIGN.md §5 C16")
 
